@@ -12,7 +12,7 @@
 //!   hangul ranges                               -> 8 items `a-b,c-d` (or `-`): maximal ranges of each predicate over 0..=0x10FFFF
 //!   hangul support <spec> <u>                   -> <has_glyph 0|1> <is_zero_width_char 0|1>
 //!   hangul pre <level> <nodc 0|1> <spec> <text> -> ok cp:cluster:feature ...   (feature 0 none 1 ljmo 2 vjmo 3 tjmo)
-//!   hangul prem <level> <nodc> <spec> <text>    -> ok cp:cluster:feature:mask ...  (not modelled; for flag inspection)
+//!   hangul prem <level> <nodc> <spec> <text>    -> ok cp:cluster:feature:mask ...  (masks = glyph flags; model: HangulBuf.lean, stream hangul-pre-flags of C03)
 //!   hangul masks <spec>                         -> the plan's mask_array (4 numbers)
 //!   hangul font <id> <spec>                     -> ok        (registers the built font for `shape <id> …`)
 //!   hangul fonthex <spec>                       -> hex of the built sfnt
